@@ -113,9 +113,37 @@ def install_wrapper():
     _state["installed"] = True
 
 
+def gen_float_residue(rng):
+    """FS-only networks whose path sums leave float residues (0.5 - 0.4 - 0.1 < 0): zero-work heads and
+    milestones, work amounts from {0.1 .. 0.7}, several chains of different hop counts between the same
+    end points, so that tiny negative or tiny positive lst/lft values occur and are revisited."""
+    n_chain = rng.randint(2, 4)
+    tasks = [G._simple_task(0, rng.choice([0.0, 0.0, 0.1]), [])]
+    ends = []
+    for c in range(n_chain):
+        prev = 0
+        for h in range(rng.randint(1, 4)):
+            k = len(tasks)
+            tasks.append(G._simple_task(k, rng.choice([0.1, 0.2, 0.3, 0.4, 0.5, 0.7, 0.0]), [[prev, G.FS]]))
+            prev = k
+        ends.append(prev)
+    if rng.random() < 0.6:
+        k = len(tasks)
+        tasks.append(G._simple_task(k, rng.choice([0.0, 0.1, 0.3]), [[e, G.FS] for e in ends]))
+    workers = [G._worker(0, k, {"t%d" % k: 1.0}) for k in range(len(tasks))]
+    order = None
+    if rng.random() < 0.5:
+        order = list(range(len(tasks)))
+        rng.shuffle(order)
+    return dict(tasks=tasks, comps=[], wps=[], teams=[dict(name="team0", id="TM0", targets=list(range(len(tasks))), workers=workers)],
+                sim=dict(rule=rng.randrange(9), absence=[], auto_flag=False, max_time=40), task_order=order)
+
+
 def make_case(prop, seed, i, tier):
     rng = rng_for(prop, seed, i)
     big = tier == "thorough"
+    if i % 6 == 4:
+        return dict(prop=prop, i=i, kind="sim", spec=gen_float_residue(rng), family="float-residue")
     if i % 3 == 2:
         spec = G.gen_fs(rng, max_tasks=12 if big else 9)
         ops = []
